@@ -106,6 +106,8 @@ type Interp struct {
 	expApps []expApp
 	conc    *concreteCtx
 	cfgs    map[*ssa.Function]*fnCFG
+	Fixed   map[string]string
+	drawMode int
 }
 
 type WriteEvent struct {
@@ -172,6 +174,7 @@ func (in *Interp) ResetPath(c *smt.Ctx, s *smt.Solver, p *PathState) {
 	in.unsupportedHit = ""
 	in.spec = nil
 	in.expApps = nil
+	in.drawMode = 0
 }
 
 func (in *Interp) newObj(v Value, label string) *Obj {
@@ -744,6 +747,9 @@ func (in *Interp) unop(fr *frame, x *ssa.UnOp) Value {
 }
 
 func basicKind(t types.Type) types.BasicKind {
+	if t == nil {
+		return types.Invalid
+	}
 	if b, ok := t.Underlying().(*types.Basic); ok {
 		return b.Kind()
 	}
@@ -769,6 +775,9 @@ func wrapInt(v int64, t types.Type) int64 {
 }
 
 func isUnsigned(t types.Type) bool {
+	if t == nil {
+		return false
+	}
 	if b, ok := t.Underlying().(*types.Basic); ok {
 		return b.Info()&types.IsUnsigned != 0
 	}
